@@ -46,7 +46,7 @@ TIERS = {
 }
 FLOORS = {
     "quick": {"counts": {"jobs_streamed": 480, "transmissions_checked": 3000, "resends_requested": 300,
-                         "checksums_verified": 3000, "jobs_with_faults": 380, "enumerated_fault_patterns": 87,
+                         "checksums_verified": 3000, "jobs_with_faults": 300, "enumerated_fault_patterns": 87,
                          "yields_injected": 50000, "context_switch_observations": 5000}, "keys": 60,
               "max_inconclusive_frac": 0.2},
     "thorough": {"counts": {"jobs_streamed": 4000, "transmissions_checked": 60000}, "keys": 200,
